@@ -128,5 +128,7 @@ pub fn run(ctx: &mut Ctx) {
             ctx.count(&format!("kind {} swept", kind));
         }
     }
+    // frames that are canonical by construction (built from the specification table by C02's reference codec)
+    crate::c02::canonical_frames_for_c01(ctx);
     ctx.exhaustive_domains.push("per kind and mode: every enumerant, every single flag constant, boundary integers of every integer field, every race-length / fuel byte, every IS_CIM (mode, sub-mode, selection) up to 8/12, every IS_SMALL sub-type x {small values, each single bit}, all 256 values of each packed ConInfo byte (thinned in quick)".into());
 }
